@@ -43,6 +43,11 @@ pub struct End {
     pub reverse: bool,
     /// Raw: remove every remaining object before dropping the pool.
     pub empty_first: bool,
+    /// Raw opaque / blind: just before the pool is dropped, a plain-data value (no destructor) of each insertable
+    /// layout is inserted and removed again - the last insert into its slab is then of a type without a destructor
+    /// while objects with one may still live there. Absent in replay files written before this existed.
+    #[serde(default)]
+    pub plain_touch: bool,
 }
 
 #[derive(Clone, Debug, Serialize, Deserialize)]
@@ -465,6 +470,8 @@ pub fn generate(rng: &mut Rng, oracle: Oracle, faulty: bool, small: bool) -> Poo
         pools_first: g.rng.bool(),
         reverse: g.rng.bool(),
         empty_first: g.rng.chance(1, 2),
+        // Not drawn (every scenario generated before this existed stays what it was): parity of the history length.
+        plain_touch: ops.len() % 2 == 0,
     };
     let must_not_drop = access == Access::Raw && g.rng.chance(2, 5);
     // Under Miri (small modes) a non-empty MustNotDropContents *blind* pool is not dropped: the
